@@ -10,7 +10,9 @@ import (
 	"io/fs"
 	"os"
 	"path/filepath"
+	"strings"
 	"testing"
+	"time"
 
 	"github.com/semihalev/twig"
 	"pgregory.net/rapid"
@@ -585,7 +587,149 @@ func TestC11Later(t *testing.T) {
 	}
 }
 
+// ---- includes nested deep, and a template that goes away -----------------------------------------------
+
+type C11DeepCase struct {
+	Depth int  `json:"depth"`
+	Chain bool `json:"chain"` // a chain of distinct templates instead of one that includes itself
+	With  bool `json:"with"`
+}
+
+// checkC11Deep: the innermost of Depth nested includes still reads the variables of the outermost
+// template and of the Render call.
+func checkC11Deep(c C11DeepCase) error {
+	tm := map[string]string{}
+	var want strings.Builder
+	if c.Chain {
+		for i := 0; i < c.Depth; i++ {
+			with := ""
+			if c.With {
+				with = fmt.Sprintf(" with {'k%d': %d}", i, i)
+			}
+			tm[fmt.Sprintf("c%d", i)] = fmt.Sprintf("%d{{ top }}{%% include 'c%d'%s %%}", i%10, i+1, with)
+			want.WriteString(fmt.Sprintf("%dT", i%10))
+		}
+		tm[fmt.Sprintf("c%d", c.Depth)] = "<{{ top }}{{ outer }}{{ k0 }}>"
+		want.WriteString("<TO")
+		if c.With {
+			want.WriteString("0")
+		}
+		want.WriteString(">")
+		tm["main"] = "{% set outer = 'O' %}{% include 'c0' %}"
+	} else {
+		with := ""
+		if c.With {
+			with = " with {'n': n + 1}"
+		} else {
+			with = " with {'n': n + 1} only"
+			_ = with
+			with = " with {'n': n + 1}"
+		}
+		tm["rec"] = "{{ n % 10 }}{% if n < max %}{% include 'rec'" + with + " %}{% endif %}{{ sep }}"
+		tm["main"] = "{% set sep = ';' %}{% include 'rec' with {'n': 0} %}"
+		for i := 0; i <= c.Depth; i++ {
+			want.WriteString(fmt.Sprint(i % 10))
+		}
+		want.WriteString(strings.Repeat(";", c.Depth+1))
+	}
+	r := render(newEngine(tm), "main", map[string]interface{}{"top": "T", "max": c.Depth})
+	if r.Failed() || r.Out != want.String() {
+		return fmt.Errorf("%d nested includes (chain=%v, with=%v): %s, want %s", c.Depth, c.Chain, c.With, trunc(fmt.Sprint(r)), q(trunc(want.String())))
+	}
+	return nil
+}
+
+type C11GoneCase struct {
+	Opts int `json:"opts"` // bit2 ignore missing
+	How  int `json:"how"`  // 0 the included file is removed, 1 rewritten with a syntax error, 2 replaced by a directory
+}
+
+// checkC11Gone: auto-reload on, file-system loader; after a successful render the included file goes
+// away or breaks. A missing template is empty under `ignore missing` and ErrTemplateNotFound without;
+// a broken one is reported either way. The earlier copy is not served.
+func checkC11Gone(c C11GoneCase) error {
+	root, err := os.MkdirTemp(workDir(), "c11gone-")
+	if err != nil {
+		return fmt.Errorf("harness: %v", err)
+	}
+	defer os.RemoveAll(root)
+	opts := ""
+	if c.Opts&4 != 0 {
+		opts = " ignore missing"
+	}
+	write := func(name, src string, ts int64) {
+		p := filepath.Join(root, name+".twig")
+		os.WriteFile(p, []byte(src), 0o644)
+		os.Chtimes(p, time.Unix(ts, 0), time.Unix(ts, 0))
+	}
+	write("main", "A{% include 'part'"+opts+" %}B", 1700000000)
+	write("part", "(part{{ v }})", 1700000000)
+	e := twig.New()
+	e.RegisterLoader(twig.NewFileSystemLoader([]string{root}))
+	e.SetAutoReload(true)
+	if r := render(e, "main", map[string]interface{}{"v": 1}); r.Failed() || r.Out != "A(part1)B" {
+		return fmt.Errorf("first render: %v", r)
+	}
+	switch c.How {
+	case 0:
+		os.Remove(filepath.Join(root, "part.twig"))
+	case 1:
+		write("part", "(part{% if %}", 1700000100)
+	default:
+		os.Remove(filepath.Join(root, "part.twig"))
+		os.Mkdir(filepath.Join(root, "part.twig"), 0o755)
+	}
+	r := render(e, "main", map[string]interface{}{"v": 2})
+	if r.Panic != "" {
+		return fmt.Errorf("panic: %s", r.Panic)
+	}
+	what := []string{"was removed", "was rewritten with a syntax error", "was replaced by a directory"}[c.How]
+	switch {
+	case c.How == 0 && c.Opts&4 != 0:
+		if r.Failed() || r.Out != "AB" {
+			return fmt.Errorf("the included file %s (auto-reload on, `ignore missing`): %v, want \"AB\"", what, r)
+		}
+	case c.How == 0:
+		if r.Err == "" || !errors.Is(r.Error(), twig.ErrTemplateNotFound) {
+			return fmt.Errorf("the included file %s (auto-reload on): %v, want an error matching ErrTemplateNotFound", what, r)
+		}
+	default:
+		if r.Err == "" {
+			return fmt.Errorf("the included file %s (auto-reload on): the render returned %s without an error", what, q(r.Out))
+		}
+	}
+	return nil
+}
+
+func TestC11Deep(t *testing.T) {
+	r := NewRec(t, "C11", "exhaustive: includes nested 1, 2, 10, 31, 32, 33, 47..51, 64, 100, 150 levels (one template including itself with a counter, and a chain of distinct templates, with and without `with`), the innermost reading variables of the outermost template and of the Render call; an included file that is removed / broken / replaced by a directory after a successful render under auto-reload, with and without `ignore missing`; expected text computed directly; non-trivial = depth >= 10 or the file changes")
+	defer r.Flush()
+	r.SetExhaustive()
+	for _, d := range []int{1, 2, 10, 31, 32, 33, 47, 48, 49, 50, 51, 64, 100, 150} {
+		for _, chain := range []bool{false, true} {
+			for _, with := range []bool{false, true} {
+				c := C11DeepCase{Depth: d, Chain: chain, With: with}
+				r.Case(fmt.Sprint(c), d >= 10, c)
+				if err := checkC11Deep(c); err != nil {
+					r.FailEnumKey(t, "C11.deep", fmt.Sprint(chain, with), c, err)
+				}
+			}
+		}
+	}
+	for how := 0; how < 3; how++ {
+		for _, opts := range []int{0, 4} {
+			c := C11GoneCase{Opts: opts, How: how}
+			r.Case(fmt.Sprint("gone", c), true, c)
+			if err := checkC11Gone(c); err != nil {
+				r.FailEnum(t, "C11.gone", c, err)
+			}
+		}
+	}
+}
+
 func init() {
 	reg("C11.rel", checkC11Rel)
 	reg("C11.later", checkC11Later)
+	reg("C11.deep", checkC11Deep)
+	reg("C11.gone", checkC11Gone)
 }
